@@ -519,6 +519,10 @@ def family_c19(seed, model, out, shape=None):
             src = '%s/TEST-%d%s' % (rng.choice(['bugfix', 'feature', 'improvement']), i + 1,
                                     rng.choice(['', '-fix', '-w-5.1', '/sub']))
             ev = {'e': 'create_pr', 'src': src, 'dst': dst, 'label': 'c%d' % (i + 1)}
+            if rng.random() < 0.4:
+                # titles people write: with numbers in them (a step, a version, another pull request's number)
+                ev['title'] = rng.choice(['Fix step %d of the upgrade procedure' % rng.randint(1, 3), 'Bump to 10.0.%d'
+                                          % rng.randint(1, 4), 'Follow-up of #%d' % rng.randint(1, 3), '2nd try'])
             roll = 1.0 if shape else rng.random()
             if roll < 0.12:
                 ev['file'], ev['content'] = 'shared_a', 'content of %s\n' % src
